@@ -456,8 +456,9 @@ class Component(CaselessDict):
                         tzp.cache_timezone_component(component)
                     except ValueError:
                         raise
-                    except (KeyError, AttributeError, AssertionError, TypeError) as e:
-                        # malformed VTIMEZONE, e.g. missing TZOFFSETTO or two TZIDs
+                    except (KeyError, AttributeError, AssertionError, TypeError, IndexError) as e:
+                        # malformed VTIMEZONE, e.g. missing TZOFFSETTO, two TZIDs
+                        # or no STANDARD/DAYLIGHT at all
                         raise ValueError(f"Invalid VTIMEZONE: {e!r}") from e
             # we are adding properties to the current top of the stack
             else:
